@@ -55,6 +55,7 @@ type World struct {
 	States       map[uint64]struct{}
 	AllConns     []*Conn
 	FaultsOff    bool // quiescence phase: no more faults
+	FaultFrom    int  // no fault before this step of the incarnation's run (spreads the budget to the late part of a workload)
 	StopParam    int  // stop the process at this storage-operation boundary (2i: before op i, 2i+1: after op i; -1 none)
 	StopBase     int  // index of the first storage operation StopParam counts from
 	Budget       int  // remaining fault budget
@@ -151,7 +152,7 @@ func (w *World) Violate(prop, oracle, sig, format string, args ...any) {
 }
 
 // FaultOK is whether a fault may be injected now.
-func (w *World) FaultOK() bool { return !w.FaultsOff && w.Budget > 0 }
+func (w *World) FaultOK() bool { return !w.FaultsOff && w.Budget > 0 && w.Steps >= w.FaultFrom }
 
 // park kinds
 const (
